@@ -247,9 +247,24 @@ func runC35(c *core.Ctx) {
 			return cc != nil && len(cc.Args) == 3 && (cc.Args[2] == ssa.Value(aj.Params[2]) || cc.Args[1] == ssa.Value(aj.Params[2]))
 		}
 		negDust := edgeFact(func(f core.Fact, cd core.Cond) bool {
-			for _, side := range []string{f.A, f.B} {
-				if strings.Contains(side, "Cmp(") && strings.Contains(side, "p2") {
-					if ub, ok := f.UpperBound(side); ok && ub < 0 {
+			bo, isBo := cd.V.(*ssa.BinOp)
+			if !isBo {
+				return false
+			}
+			for _, side := range []ssa.Value{bo.X, bo.Y} {
+				call, isCall := side.(*ssa.Call)
+				if !isCall || !core.CallDesc(&call.Call).Is("math/big", "Int", "Cmp") || len(call.Call.Args) != 2 {
+					continue
+				}
+				key := core.ExprKey(call)
+				// dust.Cmp(x) < 0, or the same test written from the other side: x.Cmp(dust) > 0
+				if call.Call.Args[0] == ssa.Value(aj.Params[2]) {
+					if ub, ok := f.UpperBound(key); ok && ub < 0 {
+						return true
+					}
+				}
+				if call.Call.Args[1] == ssa.Value(aj.Params[2]) && isBigZero(call.Call.Args[0]) {
+					if lb, ok := f.LowerBound(key); ok && lb > 0 {
 						return true
 					}
 				}
@@ -402,4 +417,14 @@ func firstBodyBlock(l *core.Loop) *ssa.BasicBlock {
 		}
 	}
 	return l.Header
+}
+
+// isBigZero: big.NewInt(0).
+func isBigZero(v ssa.Value) bool {
+	call, ok := v.(*ssa.Call)
+	if !ok || !core.CallDesc(&call.Call).Is("math/big", "", "NewInt") || len(call.Call.Args) != 1 {
+		return false
+	}
+	n, isC := core.ConstInt(call.Call.Args[0])
+	return isC && n == 0
 }
